@@ -540,6 +540,7 @@ impl World {
 
 impl Drop for World {
     fn drop(&mut self) {
+        let _ = std::env::set_current_dir("/");
         for t in &self.fds {
             if t.alive {
                 for s in 0..2 {
